@@ -66,10 +66,11 @@ ASSERT = {
   'dialog': {'p.nopanic': ['C07', 'C06'], 'p.answered': ['C06', 'C05']},
   'timed': {'p.intime': ['C05']},
   'conc': {'p.live': ['C06', 'C05'], 'p.prompt': ['C06', 'C05'], 'p.whole': ['C06']},
+  'deep': {'p.terminated': ['C05'], 'p.nopanic': ['C04', 'C05'], 'p.bestlegal': ['C04'], 'p.pvlegal': ['C04'], 'p.bestfirst': ['C04'], 'p.mateok': ['C13'], 'p.depthok': ['C05']},
   'facts': {'p.terminated': ['C05'], 'p.depthok': ['C05'], 'p.stopnow': ['C05'], 'p.nopanic': ['C04', 'C05']},
 }
 # operations whose answers are compared even outside the legal-position domain
-ALWAYS = {'fen', 'att', 'magic', 'tt', 'time', 'go', 'gof', 'prep', 'search', 'facts', 'hashdiff', 'ecache', 'dialog', 'timed', 'conc'}
+ALWAYS = {'fen', 'att', 'magic', 'tt', 'time', 'go', 'gof', 'prep', 'search', 'facts', 'hashdiff', 'ecache', 'dialog', 'timed', 'conc', 'deep'}
 
 
 def sh(cmd, cwd=None, env=None, timeout=None, stdin=None):
@@ -252,11 +253,11 @@ def run_ops(wdir, tag, gen_args=None, ops_lines=None):
         rc, out = sh([HARNESS, 'exec', opsf + '.in', gof], env=GOENV, timeout=3000)
         shutil.move(opsf + '.in', opsf)
     else:
-        rc, out = sh([HARNESS, 'ops'] + gen_args + [opsf, gof, statf], env=GOENV, timeout=20000)
+        rc, out = sh([HARNESS, 'ops'] + gen_args + [opsf, gof, statf], env=GOENV, timeout=int(os.environ.get('VERIF_OP_TIMEOUT', '3600')))
     if rc != 0:
         raise RuntimeError('harness failed: ' + out[-2000:])
     with open(opsf, 'rb') as fin, open(leanf, 'wb') as fout:
-        p = subprocess.run([DRIVER], stdin=fin, stdout=fout, stderr=subprocess.PIPE, timeout=20000)
+        p = subprocess.run([DRIVER], stdin=fin, stdout=fout, stderr=subprocess.PIPE, timeout=int(os.environ.get('VERIF_OP_TIMEOUT', '3600')))
     if p.returncode != 0:
         raise RuntimeError('driver failed: ' + p.stderr.decode()[-2000:])
     ops = open(opsf).read().split('\n')
